@@ -393,8 +393,14 @@ impl<'a> Lexer<'a> {
         if let Some((pos, ch)) = result {
             // Add base offset for absolute position (needed when chars is reset from middle of source)
             self.current_pos = self.chars_base_offset + pos + ch.len_utf8();
-            // ECMAScript line terminators: LF, LS (U+2028), PS (U+2029)
-            if ch == '\n' || ch == '\u{2028}' || ch == '\u{2029}' {
+            // ECMAScript line terminators: LF, CR, LS (U+2028), PS (U+2029);
+            // the sequence CR LF counts once (at the LF)
+            let is_line_end = match ch {
+                '\n' | '\u{2028}' | '\u{2029}' => true,
+                '\r' => self.peek() != Some('\n'),
+                _ => false,
+            };
+            if is_line_end {
                 self.line += 1;
                 self.column = 1;
             } else {
